@@ -71,7 +71,11 @@ pub mod panics {
         pub fn site(&self) -> String {
             let mut msg = String::new();
             let mut last_hash = false;
-            for c in self.message.chars().take(160) {
+            // Only the constant head of the message: stop at the first payload delimiter so that
+            // Debug dumps of the offending value (keys, signatures, ids) do not split one defect into
+            // thousands of fingerprints.
+            let head_end = self.message.find(|c| c == '{' || c == '(' || c == '[' || c == '\n' || c == '"').unwrap_or(self.message.len());
+            for c in self.message[..head_end].chars().take(96) {
                 if c.is_ascii_digit() {
                     if !last_hash {
                         msg.push('#');
